@@ -32,7 +32,7 @@ def dbname(platform):
 
 
 def gen(rng, n_tus=None, n_platforms=None, outside=False, missing=0.0, toggles=True, subdir=True,
-        forced=True, computed=True, big=False, findable=False, deep=0, casepair=False, reguard=False, dirdecoy=False, outside_tu=False):
+        forced=True, computed=True, big=False, findable=False, deep=0, casepair=False, reguard=False, dirdecoy=False, outside_tu=False, updir=False, links=False):
     """deep=N: the first translation unit also includes a chain of N headers nested N levels deep (each level holds
     code and a macro test; the innermost one defines a macro the translation unit tests afterwards and includes
     ordinary -- possibly missing -- headers).  gcc's nesting limit is 200.
@@ -40,6 +40,10 @@ def gen(rng, n_tus=None, n_platforms=None, outside=False, missing=0.0, toggles=T
     which includes both.
     reguard: a guarded header is included, its guard macro is #undef'ed (and a mode macro defined), and it is included
     again: the body must be read a second time under the new macro state.
+    updir: some includes are spelled with a leading `../` (`"../inc2/x.h"`): such a name is looked up beside the
+    includer and then relative to every search directory, like any other.
+    links: a header outside the root (and one inside it) gets a second name inside the root through a file symlink, and
+    the first translation unit includes it under that name.
     outside_tu: the last translation unit lives outside the analysis root (a generated source) and includes in-root
     headers.
     dirdecoy: a *directory* named like a header sits in a search directory that has no such header file (a compiler
@@ -68,6 +72,10 @@ def gen(rng, n_tus=None, n_platforms=None, outside=False, missing=0.0, toggles=T
         x = rng.random()
         if missing and rng.random() < missing:
             nm = rng.choice(["nothere.h", "gone/" + nm, nm.replace(".h", "_missing.h")])
+        if updir and x > 0.8 and nm in where:
+            d2 = [d_ for d_ in where[nm] if d_ in INC_DIRS]
+            if d2:
+                return ["include", rng.choice("qqa"), "../" + rng.choice(d2) + "/" + nm]
         if computed and x < 0.15:
             return ["include", "m", rng.choice(['"%s"', "<%s>"]) % nm]
         return ["include", "q" if x < 0.6 else "a", nm]
@@ -156,6 +164,13 @@ def gen(rng, n_tus=None, n_platforms=None, outside=False, missing=0.0, toggles=T
             body += [["include", "q", first], ["code"], ["include", "q", second],
                      ["chain", [["ifdef", "CASE_UP", [["code"]]], ["else", None, [["code"]]]]],
                      ["chain", [["ifdef", "CASE_LO", [["code"]]], ["else", None, [["code"]]]]]]
+        if links and t == 0:
+            files["@out/ext/olinked.h"] = [["code"], ["define", "D_OLINK", None], ["code"], ["code"]]
+            files["inc/ilinked.h"] = [["code"], ["define", "D_ILINK", None], ["code"]]
+            body += [["include", "q", "olink.h"], ["include", "q", "ilink.h"],
+                     ["chain", [["ifdef", "D_OLINK", [["code"]]], ["else", None, [["code"]]]]],
+                     ["chain", [["ifdef", "D_ILINK", [["code"]]], ["else", None, [["code"]]]]]]
+            link_map = {f"{d}/olink.h": "@out/ext/olinked.h", f"{d}/ilink.h": "inc/ilinked.h"}
         if reguard and t == 0:
             # nothing but the include guard at top level, like a real header
             files[f"{d}/tab.h"] = [["bare"], ["chain", [["ifndef", "TAB_G", [
@@ -201,6 +216,8 @@ def gen(rng, n_tus=None, n_platforms=None, outside=False, missing=0.0, toggles=T
     for rel, body in list(files.items()):
         files[rel] = _expand_computed(body)
     case = {"files": files, "tus": tus}
+    if links and tus and not tus[0]["file"].startswith("@out/"):
+        case["flinks"] = link_map
     if dirdecoy:
         free = [(d_, nm) for nm in names for d_ in ["src"] + INC_DIRS if f"{d_}/{nm}" not in files]
         if free:
@@ -247,6 +264,11 @@ def materialize(case, base, alias=None):
             f.write(r.text)
     for d in INC_DIRS + ["src"] + list(case.get("dirs", [])):
         os.makedirs(os.path.join(root, d), exist_ok=True)
+    for l, t in case.get("flinks", {}).items():
+        lp = abspath(root, out, l)
+        os.makedirs(os.path.dirname(lp), exist_ok=True)
+        if not os.path.lexists(lp):
+            os.symlink(abspath(root, out, t), lp)
     return root, rendered
 
 
